@@ -31,6 +31,7 @@ func main() {
 	commands["rot"] = cmdRot
 	commands["api"] = cmdAPI
 	commands["asm"] = cmdAsm
+	commands["lx"] = cmdLX
 	commands["cli"] = cmdCLI
 	commands["cli-replay"] = cmdCLIReplay
 	commands["loadrt"] = cmdLoadRT
